@@ -76,11 +76,18 @@ def seed_strategy(a, rng, allow=("int", "gen", "uniform", "extreme", "undercoord
             for i in cand:
                 byz.setdefault(int(num[i]), []).append(int(i))
             lists = list(byz.values())
+            # every interface-adjacent atom before any interior atom (alternating species):
+            # the schedule keeps drawing seeds whose neighbourhood holds the other material
+            cap = 8 if rng.random() < 0.4 else 64
             prio = []
-            while any(lists) and len(prio) < 8:
+            while any(lists) and len(prio) < cap:
                 for L in lists:
                     if L:
                         prio.append(L.pop(0))
+            if rng.random() < 0.3:
+                # one species first: all interface seeds of one slab in a row
+                z0 = int(num[prio[0]])
+                prio = [x for x in prio if int(num[x]) == z0] + [x for x in prio if int(num[x]) != z0]
         return {"kind": "script", "strategy": "interface", "prio": prio, "then": then, "r": r}
     # chain: a seed, then atoms just outside its search radius, then a neighbour of the first
     i0 = int(rng.integers(n))
